@@ -13,6 +13,9 @@
 //	     the REAL getSortedProducers / getSortedProducersDposV2 on a state holding these producers, called
 //	     reps times (fresh map, different insertion order each time).  Output: the node keys in order, or
 //	     "unstable" when two repetitions disagree.
+//	crmembers <reps> <did,...>
+//	     the REAL Committee.GetAllMembersCopy on a committee holding these members, reps times on freshly built
+//	     maps: the DIDs in the returned order, or "unstable".
 //	snap <votes:nodekey:ownerkey>...
 //	     Snapshot() of the REAL DPoS checkpoint of a state holding these producers, serialised before and after
 //	     the live state is changed.  Output: isolated | shared.
@@ -46,6 +49,9 @@ import (
 	"elaverif/harness/regnet"
 
 	"github.com/elastos/Elastos.ELA/common"
+	"github.com/elastos/Elastos.ELA/common/config"
+	"github.com/elastos/Elastos.ELA/core/checkpoint"
+	crstate "github.com/elastos/Elastos.ELA/cr/state"
 	"github.com/elastos/Elastos.ELA/core/types"
 	common2 "github.com/elastos/Elastos.ELA/core/types/common"
 	"github.com/elastos/Elastos.ELA/dpos/state"
@@ -453,8 +459,46 @@ func execSnap(t []string) string {
 	return "isolated"
 }
 
+func didOf(hexs string) common.Uint168 {
+	var d common.Uint168
+	copy(d[:], hx.UnHex(hexs))
+	return d
+}
+
+// the council members as the next-arbiter computation sees them (GetAllMembersCopy: getCRCArbitersV0/V1/V2 pair the
+// fixed CRC node keys with unclaimed members in THIS order)
+func execCRMembers(t []string) string {
+	params := config.GetDefaultParams()
+	dids := strings.Split(t[2], ",")
+	var first string
+	for k := 0; k < atoi(t[1]); k++ {
+		c := crstate.NewCommittee(params, checkpoint.NewManager(params))
+		c.Members = map[common.Uint168]*crstate.CRMember{}
+		for i := range dids {
+			d := didOf(dids[(i+k*3)%len(dids)]) // a rotation: every member exactly once, another insertion order per repetition
+			m := &crstate.CRMember{MemberState: crstate.MemberElected}
+			m.Info.DID = d
+			c.Members[d] = m
+		}
+		var out []string
+		for _, m := range c.GetAllMembersCopy() {
+			out = append(out, hx.Hex(m.Info.DID[:]))
+		}
+		cur := strings.Join(out, ",")
+		if k == 0 {
+			first = cur
+		} else if cur != first {
+			lastUnstable = first + " | " + cur
+			return "unstable"
+		}
+	}
+	return first
+}
+
 func exec(t []string) string {
 	switch t[0] {
+	case "crmembers":
+		return execCRMembers(t)
 	case "snap":
 		return execSnap(t)
 	case "ckorder":
@@ -526,6 +570,12 @@ func exec(t []string) string {
 // undisturbed private generator seeded from the block hash draws first.
 func oracle(t []string, out string) *hx.Violation {
 	switch t[0] {
+	case "crmembers":
+		if out == "unstable" {
+			return &hx.Violation{Kind: "council-member-order-depends-on-map-order",
+				Detail: "GetAllMembersCopy (the order in which unclaimed CRC node keys are handed to council members) returned two orders for one member set: " + lastUnstable}
+		}
+		return nil
 	case "snap":
 		if out == "shared" {
 			return &hx.Violation{Kind: "checkpoint-snapshot-shares-live-state",
@@ -613,6 +663,26 @@ func oracle(t []string, out string) *hx.Violation {
 }
 
 func gen(g *hx.Gen) {
+	for i := 0; i < g.N(60, 600); i++ {
+		n := 2 + g.R.Intn(11)
+		var ds []string
+		seen := map[string]bool{}
+		for len(ds) < n {
+			d := make([]byte, 21)
+			d[0] = 0x67
+			copy(d[1:], g.R.Bytes(3))
+			if g.R.Chance(50) {
+				d[20] = byte(g.R.Intn(3)) // the most significant byte for Compare is the LAST one
+			} else {
+				copy(d[17:], g.R.Bytes(4))
+			}
+			if !seen[string(d)] {
+				seen[string(d)] = true
+				ds = append(ds, hx.Hex(d))
+			}
+		}
+		g.Emit("crmembers 6 %s", strings.Join(ds, ","))
+	}
 	for i := 0; i < g.N(20, 200); i++ {
 		g.Emit("snap %s", strings.Join(genProds(g, 2+g.R.Intn(8), true), " "))
 	}
